@@ -101,7 +101,15 @@ func TestVerif_C09_dumpq(t *testing.T) {
 	r := s.Rand()
 	n := verifh.N(250, 5000)
 	nBad := 0
-	for cs := 0; cs < n && nBad < 3; cs++ {
+	type c09dqCase struct {
+		async      bool
+		ops        []string
+		lops       []c09dqLop
+		line, hum  string
+	}
+	var all []c09dqCase
+	var lines []string
+	for cs := 0; cs < n; cs++ {
 		async := r.Intn(5) != 0
 		steps := 12 + r.Intn(49)
 		fill := r.Intn(6) == 0 // long runs without releasing the writer: the channel fills up
@@ -190,10 +198,20 @@ func TestVerif_C09_dumpq(t *testing.T) {
 		}
 		line := fmt.Sprintf("c09dumpq %s 5 %s", a, strings.Join(ops, ","))
 		hum := "async=" + a + " " + strings.Join(human, " ")
-		ans, err := verifh.RunModel([]string{line})
-		if err != nil {
-			t.Fatalf("model: %v", err)
+		all = append(all, c09dqCase{async, ops, lops, line, hum})
+		lines = append(lines, line)
+	}
+	// one driver process for all cases: the predictions are needed BEFORE a case runs (blocked steps are not executed)
+	answers, err := verifh.RunModel(lines)
+	if err != nil {
+		t.Fatalf("model: %v", err)
+	}
+	for ci, c := range all {
+		if nBad >= 3 {
+			break
 		}
+		async, ops, lops, line, hum := c.async, c.ops, c.lops, c.line, c.hum
+		ans := []string{answers[ci]}
 		pred := strings.Split(ans[0], ";")
 		if len(pred) != len(ops) {
 			s.Case(line, "model-answer-has-"+strconv.Itoa(len(pred))+"-steps", true, "", false, hum)
